@@ -144,6 +144,23 @@ struct ApplyMagnitudeImpl<Mag, ApplyAs::INTEGER_MULTIPLY, T, is_T_integral> {
     static constexpr bool would_truncate(const T &) { return false; }
 };
 
+// Applying the trivial magnitude is the identity, on every bit pattern.
+//
+// (Multiplying by `1` is _not_: for floating point types it turns a signaling NaN into a quiet one
+// unless the compiler folds the multiplication away, and inside a constant expression some
+// compilers refuse arithmetic on any NaN.)
+template <typename T, bool is_T_integral>
+struct ApplyMagnitudeImpl<Magnitude<>, ApplyAs::INTEGER_MULTIPLY, T, is_T_integral> {
+    static_assert(is_T_integral == std::is_integral<T>::value,
+                  "Mismatched instantiation (should never be done manually)");
+
+    constexpr T operator()(const T &x) { return x; }
+
+    static constexpr bool would_overflow(const T &) { return false; }
+
+    static constexpr bool would_truncate(const T &) { return false; }
+};
+
 // Helper to divide by an integer `1 / Mag`, which `T` may or may not be able to hold.
 template <typename Mag, typename T, bool CanTHoldDivisor>
 struct DivideByInverseOf {
